@@ -36,11 +36,16 @@ pub struct C14Case {
     pub tail_writes: u8,
     /// while drop() has not returned and the old worker is parked, try to open the directory
     pub probe: bool,
+    /// after the tail writes, issue one more flush WITH callback and drop without waiting for it: the callback
+    /// must still fire exactly once (C04) and, if it reported Ok, the reopened store must show those writes
+    pub unacked_final_flush: bool,
+    /// the store is dropped by a panic unwinding through its owner
+    pub drop_by_panic: bool,
 }
 
 impl C14Case {
     pub fn to_json(&self) -> serde_json::Value {
-        json!({"sc": self.sc.to_json(), "placement": self.placement, "k": self.k, "hold_ms": self.hold_ms, "tail_writes": self.tail_writes, "probe": self.probe})
+        json!({"sc": self.sc.to_json(), "placement": self.placement, "k": self.k, "hold_ms": self.hold_ms, "tail_writes": self.tail_writes, "probe": self.probe, "unacked_final_flush": self.unacked_final_flush, "drop_by_panic": self.drop_by_panic})
     }
     pub fn from_json(v: &serde_json::Value) -> Option<Self> {
         Some(C14Case {
@@ -50,6 +55,8 @@ impl C14Case {
             hold_ms: v["hold_ms"].as_u64().unwrap_or(50) as u16,
             tail_writes: v["tail_writes"].as_u64().unwrap_or(0) as u8,
             probe: v["probe"].as_bool().unwrap_or(false),
+            unacked_final_flush: v["unacked_final_flush"].as_bool().unwrap_or(false),
+            drop_by_panic: v["drop_by_panic"].as_bool().unwrap_or(false),
         })
     }
 }
@@ -90,7 +97,7 @@ pub fn gen_case(seed: u64, hist: u64) -> C14Case {
     let sched = sched::gen_sched(&mut r, h.steps.len());
     let hold_ms = if r.chance(1, 5) { 400 } else { 50 };
     let tail_writes = *r.pick(&[0u8, 0, 1, 2, 3]);
-    C14Case { sc: SchedCase { hist: h, sched, faults: vec![], reader_steps: vec![], gate_acks: true }, placement: r.below(5) as u8, k: r.range(1, 3) as u8, hold_ms, tail_writes, probe: r.chance(1, 2) }
+    C14Case { sc: SchedCase { hist: h, sched, faults: vec![], reader_steps: vec![], gate_acks: true }, placement: r.below(5) as u8, k: r.range(1, 3) as u8, hold_ms, tail_writes, probe: r.chance(1, 2), unacked_final_flush: r.chance(1, 4), drop_by_panic: r.chance(1, 4) }
 }
 
 /// Grant permits to every parked thread except `except` until `until()` holds.
@@ -121,6 +128,10 @@ struct TailOut {
 
 /// The store must show one of the allowed models (the acknowledged state, or that plus a prefix of the
 /// writes issued after the last acknowledged flush). Returns the index of the model it shows.
+fn returned_early_placeholder(_s: &[trace::AckState]) -> bool {
+    false
+}
+
 fn check_instance(case: &C14Case, st: &Store, allowed: &[Model], what: &str) -> Result<usize, Viol> {
     let got = st.state();
     let entries = match st.read_all() {
@@ -196,7 +207,12 @@ pub fn run_one(case: &C14Case) -> Result<(C14Stats, Option<Viol>), RunErr> {
                     Some(l) => (l.0 + 1, l.1 + 1),
                     None => (1, 0),
                 };
-                let op = Op::Append(vec![(next, format!("c14-tail-{}", i))]);
+                // mostly appends; sometimes a purge of an entry that is still there (it may make closed chunks obsolete)
+                let purge_target = r.m.log.values().map(|e| e.0).filter(|id| Some(*id) > r.m.st.purged).next();
+                let op = match (i % 3 == 1, purge_target) {
+                    (true, Some(id)) => Op::Purge(id),
+                    _ => Op::Append(vec![(next, format!("c14-tail-{}", i))]),
+                };
                 let o = r.st.write(&op);
                 if !o.is_ok() {
                     return Err(RunErr::Viol(v(case, "tail_write_failed", format!("{} -> {}", op.brief(), o.brief()))));
@@ -204,6 +220,14 @@ pub fn run_one(case: &C14Case) -> Result<(C14Stats, Option<Viol>), RunErr> {
                 crate::genr::Gen::apply_to_model(&mut r.m, &op);
                 allowed.push(r.m.clone());
                 out.stats.unflushed_tail_writes += 1;
+            }
+            let mut final_flush: Option<u64> = None;
+            if case.unacked_final_flush {
+                let (fid3, fo3) = r.do_flush(true);
+                if !fo3.is_ok() {
+                    return Err(RunErr::Viol(v(case, "flush_call_failed", fo3.brief())));
+                }
+                final_flush = Some(fid3);
             }
             // where is the old worker now?
             let parked = match r.settle() {
@@ -258,13 +282,27 @@ pub fn run_one(case: &C14Case) -> Result<(C14Stats, Option<Viol>), RunErr> {
             let inst = r.st.inst;
             let dropped = Arc::new(AtomicBool::new(false));
             let d2 = dropped.clone();
+            let by_panic = case.drop_by_panic;
             let dropper = std::thread::Builder::new()
                 .name("rlmon_dropper".into())
                 .spawn(move || {
+                    struct Done(Arc<AtomicBool>, u32);
+                    impl Drop for Done {
+                        fn drop(&mut self) {
+                            trace::note(Ek::DropEnd { inst: self.1 });
+                            self.0.store(true, Ordering::SeqCst);
+                        }
+                    }
+                    // locals are dropped in reverse order: `rl` first, then `done`
+                    let done = Done(d2, inst);
                     trace::note(Ek::DropBegin { inst });
+                    let rl = rl;
+                    if by_panic {
+                        // the store is dropped while a panic unwinds through its owner
+                        std::panic::resume_unwind(Box::new("rlmon: owner panics (deliberate)"));
+                    }
                     drop(rl);
-                    trace::note(Ek::DropEnd { inst });
-                    d2.store(true, Ordering::SeqCst);
+                    drop(done);
                 })
                 .expect("spawn dropper");
             // Give drop a moment. This wait decides only WHEN the parked worker is released; the
@@ -309,6 +347,22 @@ pub fn run_one(case: &C14Case) -> Result<(C14Stats, Option<Viol>), RunErr> {
                 }
             }
             let _ = dropper.join();
+            if let Some(fid3) = final_flush {
+                // drop() has returned: a quiesced store has invoked every pending callback exactly once
+                let states = trace::ack_states(fid3);
+                let fired: Vec<_> = states.iter().filter(|s| !matches!(s, trace::AckState::Dropped)).collect();
+                if dropped.load(Ordering::SeqCst) && !returned_early_placeholder(&states) && fired.len() != 1 {
+                    out.viol = Some(Viol { prop: "C04".into(), sig: "C04:ack_missing_at_shutdown".into(), text: format!("a flush with a callback was issued right before the store was dropped; drop() has returned and the callback fired {} time(s) ({:?})", fired.len(), states), replay: json!({"kind": "c14", "case": case.to_json()}) });
+                    let _ = pump(early_tid, &|| !old_tid.map(trace::thread_alive).unwrap_or(false), 20.0);
+                    out.done = true;
+                    return Ok(());
+                }
+                if fired.len() == 1 && matches!(fired[0], trace::AckState::Ok) {
+                    // acknowledged: the reopened store must show at least everything up to that flush
+                    let keep = allowed.last().cloned().unwrap();
+                    allowed = vec![keep];
+                }
+            }
             let old_alive = || old_tid.map(trace::thread_alive).unwrap_or(false);
             let release_old_fully = || pump(early_tid, &|| !old_tid.map(trace::thread_alive).unwrap_or(false), 20.0);
             let cfg = r.st.cfg.clone();
